@@ -184,6 +184,23 @@ class HistoryRunner:
             if op[0] != 'create':
                 self.feat['state_ops'] += 1
             self.acc.count('hist_op/' + op[0])
+        self.check_enabled_flags('after-' + op[0])
+
+    def check_enabled_flags(self, when):
+        """The public `enabled` attribute must agree with the model; catches a
+        divergence at the operation that caused it instead of at some later
+        message (where its cause could no longer be named)."""
+        for rid, r in self.model.resps.items():
+            obj = self.objs.get(rid)
+            if obj is None or bool(obj.enabled) == bool(r.enabled):
+                continue
+            self.acc.count('enabled_flag_mismatches')
+            if r.enabled and r.permanent and r.cmdp_since_enable:
+                self.violation('C18/missed-invocation/permanent-freed-by-cmdperiod',
+                               rid=rid, observed='enabled is False ' + when)
+            self.violation(f'C18/enabled-flag-differs/{when}', rid=rid,
+                           library=bool(obj.enabled), model=bool(r.enabled))
+        self.acc.count('enabled_flag_checks')
 
     # ------------------------------------------------------------ messages
     def _gen_message(self):
@@ -330,6 +347,7 @@ class HistoryRunner:
         if groups:
             self.violation('C18/invocation-for-unknown-message',
                            entries=_j([g[0][:4] for g in groups[:5]]))
+        self.check_enabled_flags('after-dispatch')
 
     def check_message(self, tt, addr, args, res, entries):
         acc, m, feat = self.acc, self.model, self.feat
